@@ -293,22 +293,39 @@ namespace smt
         case 1:
         {
             auto it = l.vars.cbegin();
-            c_lb += lb(it->first) * it->second + l.known_term;
-            c_ub += ub(it->first) * it->second + l.known_term;
+            if (is_positive(it->second))
+            {
+                c_lb = lb(it->first) * it->second + l.known_term;
+                c_ub = ub(it->first) * it->second + l.known_term;
+            }
+            else
+            { // a negative coefficient swaps the bounds..
+                c_lb = ub(it->first) * it->second + l.known_term;
+                c_ub = lb(it->first) * it->second + l.known_term;
+            }
             break;
         }
         case 2:
         {
-            const auto expr = l / l.vars.cbegin()->second;
+            const auto c = l.vars.cbegin()->second;
+            const auto expr = l / c;
             auto it = expr.vars.cbegin();
             const auto [v0, c0] = *it++;
             assert(c0 == rational::ONE);
             const auto [v1, c1] = *it;
             if (c1 != -rational::ONE)
                 throw std::invalid_argument("not a valid real difference logic expression..");
-            const auto dist = distance(v0, v1);
-            c_lb += dist.first + expr.known_term;
-            c_ub += dist.second + expr.known_term;
+            const auto dist = distance(v1, v0); // the bounds of v0 - v1, to be scaled back by the leading coefficient..
+            if (is_positive(c))
+            {
+                c_lb = dist.first * c + l.known_term;
+                c_ub = dist.second * c + l.known_term;
+            }
+            else
+            {
+                c_lb = dist.second * c + l.known_term;
+                c_ub = dist.first * c + l.known_term;
+            }
             break;
         }
         default:
@@ -317,56 +334,15 @@ namespace smt
         return std::make_pair(c_lb, c_ub);
     }
 
-    SMT_EXPORT std::pair<inf_rational, inf_rational> rdl_theory::distance(const lin &from, const lin &to) const
-    {
-        lin expr = from - to;
-        switch (expr.vars.size())
-        {
-        case 0:
-            return std::make_pair(inf_rational(expr.known_term), inf_rational(expr.known_term));
-        case 1:
-        {
-            expr = expr / expr.vars.cbegin()->second;
-            return distance(expr.vars.cbegin()->first, 0);
-        }
-        case 2:
-        {
-            expr = expr / expr.vars.cbegin()->second;
-            auto it = expr.vars.cbegin();
-            const auto [v0, c0] = *it++;
-            assert(c0 == rational::ONE);
-            const auto [v1, c1] = *it;
-            if (c1 != -rational::ONE)
-                throw std::invalid_argument("not a valid real difference logic constraint..");
-            return distance(v0, v1);
-        }
-        default:
-            throw std::invalid_argument("not a valid real difference logic constraint..");
-        }
-    }
+    SMT_EXPORT std::pair<inf_rational, inf_rational> rdl_theory::distance(const lin &from, const lin &to) const { return bounds(to - from); }
 
     SMT_EXPORT bool rdl_theory::equates(const lin &l0, const lin &l1) const
     {
         if (l0.vars.empty() && l1.vars.empty())
             return l0.known_term == l1.known_term;
-        else if (l0.vars.empty() && l1.vars.size() == 1)
-        {
-            const auto [lb, ub] = bounds(l1);
-            return lb <= l0.known_term && ub >= l0.known_term;
-        }
-        else if (l0.vars.size() == 1 && l1.vars.empty())
-        {
-            const auto [lb, ub] = bounds(l0);
-            return lb <= l1.known_term && ub >= l1.known_term;
-        }
-        else if (l0.vars.size() == 1 && l1.vars.size() == 1)
-        {
-            const auto [lb, ub] = distance(l0.vars.cbegin()->first, l1.vars.cbegin()->first);
-            const auto kt = l0.known_term - l1.known_term;
-            return lb + kt <= 0 && ub + kt >= 0;
-        }
-        else
-            throw std::invalid_argument("not a valid comparison between real difference logic expressions..");
+        // the expressions may be equal iff zero is within the bounds of their difference..
+        const auto [lb, ub] = bounds(l0 - l1);
+        return lb <= 0 && ub >= 0;
     }
 
     bool rdl_theory::propagate(const lit &p) noexcept
